@@ -405,7 +405,9 @@ def check_overlay_rounds(rounds, rec=None):
     base = Overlay()
     want, got = [], []
     try:
-        for how, K, xs in rounds:
+        for rnd in rounds:
+            how, K, xs = rnd[:3]
+            nest = len(rnd) > 3 and rnd[3]
             if how == "tweaking":
                 cm = base.tweaking({sel: K})
             elif how == "rewriting":
@@ -413,6 +415,11 @@ def check_overlay_rounds(rounds, rec=None):
             else:
                 cm = base
             with cm:
+                if nest and how != "bare":
+                    # an overlay derived from the active one is entered and left again: the
+                    # active one keeps supplying
+                    with cm.tapping(sel, dest=[]):
+                        pass
                 for x in xs:
                     want.append(("ret", K + x) if how != "bare" else ("exc", "PteraNameError"))
                     try:
@@ -438,14 +445,15 @@ def check_overlay_rounds(rounds, rec=None):
             extra={"bucket": "overlay-rounds"})
     if rec is not None:
         kinds = {r[0] for r in rounds}
-        rec.case(h64(repr(rounds)), "bare" in kinds and len(kinds) >= 2, {"mode:overlay-rounds"},
+        rec.case(h64(repr(rounds)), "bare" in kinds and len(kinds) >= 2,
+                 {"mode:overlay-rounds"} | ({"derived-overlay-nested"} if any(len(r) > 3 and r[3] for r in rounds) else set()),
                  sample=lambda: {"rounds": [list(r) for r in rounds], "outcomes": want[:6]})
 
 
 def replay(payload):
     if payload.get("mode") == "overlay-rounds":
         try:
-            check_overlay_rounds([(r[0], r[1], list(r[2])) for r in payload["rounds"]])
+            check_overlay_rounds([(r[0], r[1], list(r[2])) + tuple(r[3:]) for r in payload["rounds"]])
         except PropertyViolation as v:
             return [{"clause": v.clause, "detail": v.detail}]
         return []
@@ -483,7 +491,7 @@ def strategy():
         if draw(st.integers(0, 23)) == 0:
             rounds = draw(st.lists(st.tuples(st.sampled_from(["tweaking", "rewriting", "bare", "bare"]),
                                              st.sampled_from([0, 500, 7]),
-                                             st.lists(st.integers(0, 7), min_size=1, max_size=3)),
+                                             st.lists(st.integers(0, 7), min_size=1, max_size=3), st.booleans()),
                                    min_size=2, max_size=5))
             return ("overlay-rounds", rounds)
         if draw(st.integers(0, 11)) == 0:
